@@ -25,7 +25,8 @@ from .writers.images import MAKERS
 # The shared encoders (writers/images.py) write one header layout per kind.  Real encoders legally write others;
 # every variant declares the pixel size (w, h) the caller asked for (BMP: |height|).
 IMAGE_VARIANTS = {
-    "jpeg": ["baseline", "dht-before-sof", "dht-dqt-sof", "exif-before-jfif", "progressive-sof2", "comment", "dri"],
+    "jpeg": ["baseline", "dht-before-sof", "dht-dqt-sof", "exif-before-jfif", "progressive-sof2", "comment", "dri",
+             "fill1", "multi-app-odd", "fill2", "restart", "fill3"],
     "png": ["plain", "ancillary-before-idat", "srgb-split-idat"],
     "gif": ["gif89a", "gif87a", "gif89a-extensions"],
     "bmp": ["info-bottom-up", "info-top-down", "v4", "v5-top-down"],
@@ -43,7 +44,8 @@ def _jpeg_variant(w, h, seed, variant):
     sof = seg(0xC2 if variant == "progressive-sof2" else 0xC0, frame)
     # Huffman tables whose code-length counts start with 5, 1 / 0, 5: read as a frame header they give a
     # different size (that is what a sniffer taking DHT for a frame header would report)
-    dht = seg(0xC4, b"\x00" + bytes([0, 5, 1] + [0] * 13) + bytes(range(6))) + seg(0xC4, b"\x10" + bytes([1] + [0] * 15) + b"\x00")
+    dht1, dht2 = seg(0xC4, b"\x00" + bytes([0, 5, 1] + [0] * 13) + bytes(range(6))), seg(0xC4, b"\x10" + bytes([1] + [0] * 15) + b"\x00")
+    dht = dht1 + dht2
     sos = seg(0xDA, b"\x01\x01\x00" + b"\x00\x3f\x00")
     scan = bytes([seed & 0x7F] + [0x00] * max(1, (2 * ((w + 7) // 8) * ((h + 7) // 8) + 7) // 8))
     if variant == "baseline" or variant == "progressive-sof2":
@@ -61,6 +63,19 @@ def _jpeg_variant(w, h, seed, variant):
         body = app0 + seg(0xFE, b"made by c14 \xc0\xc4 test encoder") + dqt + dht + sof
     elif variant == "dri":
         body = app0 + dqt + seg(0xDD, struct.pack(">H", 4)) + sof + dht
+    elif variant in ("fill1", "fill2", "fill3"):
+        # T.81 B.1.1.2: any marker may be preceded by any number of 0xFF fill bytes
+        fill = b"\xff" * int(variant[-1])
+        return (b"\xff\xd8" + b"".join(fill + x for x in (app0, dqt, dht1, dht2, sof, sos)) + scan
+                + fill + b"\xff\xd9")
+    elif variant == "multi-app-odd":
+        # several APPn / COM segments with odd payload lengths in front of the tables
+        body = (app0 + seg(0xE2, b"ICC_PROFILE\x00\x01\x01" + bytes(range(1, 12))) + seg(0xED, b"Photoshop 3.0\x008BIM\x04\x04\x00")
+                + seg(0xFE, b"odd") + seg(0xEE, b"Adobe\x00d\x00\x00\x00\x00\x00") + seg(0xFE, b"second comment.") + dqt + sof + dht)
+    elif variant == "restart":
+        # restart interval + RSTn markers inside the entropy-coded data
+        body = app0 + dqt + sof + dht + seg(0xDD, struct.pack(">H", 1))
+        scan = scan[:1] + b"\xff\xd0" + scan[1:2] + b"\xff\xd1" + scan[2:] + b"\xff\xd2" + b"\x00"
     else:
         raise ValueError(variant)
     return b"\xff\xd8" + body + sos + scan + b"\xff\xd9"
@@ -402,19 +417,23 @@ def build_epub(conc) -> bytes:
                    for i, a in enumerate(conc["anchors"]))
     chapter = ('<?xml version="1.0" encoding="utf-8"?><html xmlns="http://www.w3.org/1999/xhtml"><head><title>c</title></head>'
                f"<body><p>{word(901)}</p>{imgs}<p>{word(950)}</p></body></html>").encode()
-    manifest = []
+    manifest, listed = [], set()
     ctype = {k: v[1] for k, v in MAKERS.items()}
     for i in conc["order"]:
         a = conc["anchors"][i - 1]
         t = a["cands"][0]
         if t["mode"] != "embed":
             continue                      # a remote image is not a publication resource here
-        ext = t["segs"][-1].rsplit(".", 1)[-1] if "." in t["segs"][-1] else "png"
-        manifest.append({"part": "unused", "data": None, "href": target_string(t), "media": ctype.get(ext, "image/png")})
+        href = target_string(t)
+        if href in listed:                # one manifest item per resource: anchors with the same href share it
+            continue
+        listed.add(href)
+        kind = conc["media"][t["to"] - 1]["kind"] if t["to"] else "png"      # declared by the package, not by the name
+        manifest.append({"part": "unused", "data": None, "href": href, "media": ctype[kind]})
     # parts that are in the package but referenced by no <img>: listed in the manifest (as EPUB requires)
-    anchored = {tuple(t["segs"][-1:]) for a in conc["anchors"] for t in a["cands"] if t["mode"] == "embed"}
-    for m in conc["media"]:
-        if (m["part"][-1],) not in anchored:
+    anchored = {t["to"] for a in conc["anchors"] for t in a["cands"] if t["mode"] == "embed"}
+    for k, m in enumerate(conc["media"], start=1):
+        if k not in anchored:
             rel = m["part"][len(conc["base"]):] if m["part"][:len(conc["base"])] == conc["base"] else [".."] + m["part"]
             manifest.append({"part": "unused", "data": None, "href": "/".join(rel), "media": ctype[m["kind"]]})
     book = {"chapters": [{"kind": "flow", "blocks": [["p", _unit_text(1)]]}], "props": {"title": "T"},
